@@ -258,6 +258,7 @@ def run(ctx):
         if m.kind == "contract":
             for kind in ("instantiate", "migrate"):
                 check_struct(ctx, m, g, kind)
+    C.corpus_adequacy(ctx, enforce=True)
     ctx.floor("C01.a-variants", 100)
     ctx.floor("C01.c-wire-name", 100)
     ctx.floor("C01.e-struct", 25)
